@@ -243,7 +243,7 @@ func explore(w *World, h *harnessRun, workers []*Worker, maxPaths int, deadline 
 				np := h.paths
 				h.mu.Unlock()
 				if np >= maxPaths || time.Now().After(deadline) {
-					if len(work) > 0 || active > 0 {
+					if (len(work) > 0 || active > 0) && !stopped {
 						h.mu.Lock()
 						h.ends["budget"]++
 						h.endSamples["budget"] = append(h.endSamples["budget"], fmt.Sprintf("exploration stopped after %d paths (%d prefixes pending)", np, len(work)))
